@@ -343,6 +343,17 @@ def cancelled_ends_the_run(ctx, crate, crs, tag, prefix="resolvo::solver::"):
                     if same and c2.target("Cancelled") is not None:
                         inner[c2.bb] = c2.target("Cancelled")
             builds = {i for i, j, s_ in b.assigns() if s_["r"]["k"] == "agg" and s_["r"].get("variant") == "Cancelled"}
+            # handing the matched Result on as it is (`return outcome`) carries the cancellation as well
+            builds |= {i for i, j, s_ in b.assigns() if s_["p"]["l"] == 0 and not s_["p"].get("p") and s_["r"]["k"] == "use" and
+                       (operand_place(s_["r"]["o"]) or {}).get("l") == c.src_place["l"] and not (operand_place(s_["r"]["o"]) or {}).get("p")}
+            # ... and so does wrapping the matched error again (`Err(e) => Err(e)`, `return Err(e.into())` of the same type)
+            for i, j, s_ in b.assigns():
+                if s_["r"]["k"] == "agg" and s_["r"].get("variant") == "Err" and s_["r"].get("ops"):
+                    d_ = b.origin(s_["r"]["ops"][0])
+                    base_ = d_.get("l") if d_.get("k") in ("local", "arg") else (b.blocks[d_["bb"]]["term"]["dest"].get("l") if d_.get("k") == "call" and "bb" in d_ else None)
+                    pr_ = [e.get("as") for e in d_.get("proj", []) if isinstance(e, dict) and "as" in e]
+                    if pr_ == ["Err"] and (base_ == c.src_place["l"] or (c.src and c.src.get("k") == "call" and d_.get("k") == "call" and d_.get("bb") == c.src.get("bb"))):
+                        builds.add(i)
             heads = {h for h, body, _ in b.loops() if c.bb in body}
             S = b.succs()
             seen = {et}
@@ -449,6 +460,17 @@ def result_is_used(b, local):
             if any(k in RESULT_CONSUMERS for k in ks):
                 how.append("consumer:" + ks[0].split("::")[-1])
                 continue
+            if any(k in ("std::result::Result::map", "std::result::Result::and_then", "std::result::Result::inspect",
+                         "std::result::Result::inspect_err") for k in ks) and "p" not in t["dest"] and t["dest"]["l"] != local:
+                # a combinator that only touches the Ok side hands the error on unchanged: what counts is what happens to its result
+                dl2 = t["dest"]["l"]
+                ty2 = b.local_ty(dl2)
+                if dl2 == 0 or (ty2.startswith("std::result::Result<") and any(ty2.rstrip(">").endswith(e) or (", " + e + ">") in ty2 for e in CANCEL_ERR_TYPES)):
+                    ok2, h2 = (True, "return") if dl2 == 0 else result_is_used(b, dl2)
+                    if ok2:
+                        how.append("mapped:" + h2)
+                        continue
+                    return False, "mapped with %s, then: %s" % (ks[0].split("::")[-1], h2)
             if any(k.startswith("std::result::Result::expect") or k.startswith("std::result::Result::unwrap_or_else")
                    for k in ks):
                 how.append("asserted:" + ks[0].split("::")[-1])   # listed in C04's panic table
@@ -471,6 +493,15 @@ def result_is_used(b, local):
         for bb, j, p, kind in iter_places_read(b):
             if p["l"] == local and kind == "discr" and [e.get("as") for e in p.get("p", []) if isinstance(e, dict) and "as" in e] == ["Err"]:
                 nested = True
+    if "return" in how and nested:
+        # the value is also returned whole: if that return lies on the Err side of the match, the payload leaves with it
+        for c in q.conds(b, ()):
+            if c.kind == "discr" and (c.adt or "").endswith("result::Result") and c.src_place is not None and c.src_place.get("l") == local \
+                    and not c.src_place.get("p") and c.target("Err") is not None:
+                after = b.reachable([c.target("Err")])
+                if any(i in after for i, j, s_ in b.assigns() if s_["p"]["l"] == 0 and not s_["p"].get("p") and s_["r"]["k"] == "use" and
+                       (operand_place(s_["r"]["o"]) or {}).get("l") == local and not (operand_place(s_["r"]["o"]) or {}).get("p")):
+                    return True, ",".join(sorted(set(how)))
     if set(how) == {"match"} or ("match" in how and nested):
         # a hand-written match must take the cancellation payload out of the Err arm
         want_variant = "Cancelled" if ("PropagationError" in ty or "UnsolvableOrCancelled" in ty) else "Err"
